@@ -148,7 +148,7 @@ def run_history(hist, checks):
                 if not (O.close(P.x, U.x) and O.close(P.y, U.y) and O.close(P.z, U.z) and O.close(P.e, U.e)):
                     fails.append(fail('after %r closed the episode the printer stands at (%s, %s, %s, E%s) but the file assumes (%s, %s, %s, E%s)'
                                       % (ev[1], float(P.x), float(P.y), float(P.z), float(P.e), float(U.x), float(U.y), float(U.z), float(U.e)), k, hist, 'C03:plugin-resync'))
-            if 'C03' in checks and kind == 'cmd' and active and not excl_before and not p.state.excluding and ref_enabled and r is not None \
+            if 'C03' in checks and kind == 'cmd' and active and not excl_before and ref_enabled and r is not None \
                     and c_ is not None and c_.code in ('G0', 'G1') and (c_.get('X') is not None or c_.get('Y') is not None) and not any(exact_in(d, U.x, U.y) for d in before_regs):
                 # no episode before or after, the file's move ends outside every region: it reaches the printer (tracking kept while exclusion was off)
                 if not any(isinstance(c, str) and c == ev[1] for c in (r if isinstance(r, (list, tuple)) else [])):
